@@ -355,6 +355,7 @@ type TypeSpec struct {
 	Name    string     `json:"name"`
 	Wrapped bool       `json:"wrapped,omitempty"` // struct-backed (reflect.StructOf + BuildType)
 	NilMaps bool       `json:"nil_maps,omitempty"` // soft type declared with nil maps when it has no field
+	NoFromType bool    `json:"no_from_type,omitempty"` // soft type whose relationships are declared without FromType
 	Attrs   []AttrSpec `json:"attrs,omitempty"`
 	Rels    []RelSpec  `json:"rels,omitempty"`
 }
@@ -487,6 +488,11 @@ func buildType(t *TypeSpec) jsonapi.Type {
 	}
 	for _, r := range t.Rels {
 		typ.Rels[r.Name] = jsonapi.Rel{FromType: t.Name, FromName: r.Name, ToOne: r.ToOne, ToType: r.ToType, ToName: r.ToName, FromOne: r.FromOne}
+		if t.NoFromType {
+			rel := typ.Rels[r.Name]
+			rel.FromType = ""
+			typ.Rels[r.Name] = rel
+		}
 	}
 	return typ
 }
